@@ -376,11 +376,16 @@ def staticdir(section, dir, root='', match='', content_types=None, index='',
     ):
         raise cherrypy.HTTPError(403)  # Forbidden
 
-    handled = _attempt(filename, content_types)
+    # Hand the OS the normalised name that was just tested, not the raw one:
+    # "a/link/.." is not "a" for the kernel when "link" is a symbolic link.
+    target = normfile
+    if filename.endswith(os.sep) and not target.endswith(os.sep):
+        target += os.sep
+    handled = _attempt(target, content_types)
     if not handled:
         # Check for an index file if a folder was requested.
         if index:
-            handled = _attempt(os.path.join(filename, index), content_types)
+            handled = _attempt(os.path.join(target, index), content_types)
             if handled:
                 request.is_index = filename[-1] in (r'\/')
     return handled
